@@ -128,8 +128,7 @@ pub fn cli_main(lookup: &dyn Fn(&str) -> Option<Box<dyn runner::Prop>>, special:
                 match runner::run_parent(prop.as_mut(), tier) {
                     Ok(rr) => std::process::exit(report::finish_sweep(prop.as_mut(), tier, &rr)),
                     Err(e) => {
-                        println!("MACHINERY-ERROR property={} {}", id, e);
-                        std::process::exit(2);
+                        std::process::exit(report::baseline_failure(id, tier, &e));
                     }
                 }
             }
